@@ -880,11 +880,14 @@ func (s *session) startReadAndHandle() {
 			ctx.stat = statBadMessage.Copy(err)
 		}
 		s.graceCtxWaitGroup.Add(1)
-		if !Go(func() {
+		handle := func() {
 			defer s.peer.putContext(ctx, true)
 			ctx.handle()
-		}) {
-			s.peer.putContext(ctx, true)
+		}
+		if !Go(handle) {
+			// the goroutine pool is exhausted: handle on the reading goroutine
+			// rather than dropping a frame of a connection that stays up
+			handle()
 		}
 	}
 }
